@@ -14,6 +14,14 @@ pub mod c11;
 pub mod c09;
 #[cfg(kani)]
 pub mod c10;
+#[cfg(kani)]
+pub mod c02;
+#[cfg(kani)]
+pub mod c01;
+#[cfg(kani)]
+pub mod c14;
+#[cfg(kani)]
+pub mod c18;
 
 /// Counterexample replay (see lib/replay.py): the generated concrete-playback tests.
 #[cfg(all(kani, verif_playback))]
